@@ -657,8 +657,9 @@ class DataSelect(BaseService):
     @property
     def v(self):
         if self._v is None:
-            self._v = [v1 if v1 is not None and not np.isnan(v1)
-                       else v2
+            # `np.isnan` is defined for numbers only: an index given as a string is a given value
+            self._v = [v2 if (v1 is None or (isinstance(v1, (float, np.floating)) and np.isnan(v1)))
+                       else v1
                        for v1, v2 in zip(self.optional.v, self.fallback.v)]
 
         return self._v
